@@ -53,11 +53,18 @@ CLAIMED = {
         "text": "For every byte window that is a psABI-permitted instruction form (no prefix, REX, APX REX2), every ValueFlags/OutputKind, every symbol value and section address, CBMC proves on the real code: if a relaxation is returned then the rewritten instruction is the same operation on the same register (REX.R->REX.B, REX2 R3/R4->B3/B4) and feeds it exactly the value the original would with its GOT slot holding S - including sign extension of imm32 under REX.W - or the link fails with an overflow; nothing outside the instruction changes; TLS GD/LD/TLSDESC replacements equal the ABI's byte sequences and skip the paired relocation; rewrites happen only in executable sections and never bypass the GOT for interposable symbols. The functions are loop-free, so the whole input space is symbolic: a proof.",
         "note": "Trusted: the spec decoder/evaluator (psABI B.2/11.1, Intel SDM opcode map, APX REX2 layout); caller_value() models the three lines of apply_relocation between Relaxation::apply and write_to_buffer (value = S+A or S+A-place) because that 470-line generic function is out of Kani's reach; original addend assumed -4. CODE_5/CODE_6 (EVEX) forms, TlsGdToLocalExecLarge and TlsLdToLocalExec64 get only guard/frame obligations. Behaviour on byte windows that are not psABI forms is C22's subject, not this check's.",
     },
+    "C17": {
+        "category": "proof",
+        "design_ref": "DESIGN.md section 6, C17",
+        "technique": "Kani full-domain harnesses on the real subprocess::wait_for_child_done (libc calls linked against an any-result C stub via -Z c-ffi) and error::report_error_and_exit; every 32-bit wait status x waitpid result x fread outcome",
+        "text": "PARENT SIDE OF FORK MODE ONLY. For every wait status word the kernel can store, every waitpid result and both outcomes of reading the success byte, CBMC proves on the real function that the parent's exit code is 0 only if the success byte arrived or the worker exited normally with code 0, that a worker killed by any signal yields a code that is non-zero modulo 256, that a normal exit code is propagated, and that the error path exits non-zero. Loop-free code over a 2^32 x 2^32 domain: a proof.",
+        "note": "Not decided: that a panicking, aborting or OOM-killed worker never writes the success byte (argued from subprocess_result's control flow: the byte is written after the last `?`), the no-fork path's reliance on the Rust runtime's exit codes, and whether the output file is complete when the byte is sent - these are OS/runtime semantics outside any contract. Trusted: stubs.c as the OS contract; glibc's wait-status encoding.",
+    },
 }
 
 PENDING = {
     pid: "check under construction in this session (planned claim, see DESIGN.md section 6); not claimed until its obligations run green"
-    for pid in ["C01", "C02", "C08", "C09", "C11", "C15", "C16", "C17", "C22", "C30", "C36"]
+    for pid in ["C01", "C02", "C08", "C09", "C11", "C15", "C16", "C22", "C30", "C36"]
 }
 
 NOT_APPLICABLE = {
